@@ -74,14 +74,24 @@ impl From<Vec<u8>> for Writer {
     }
 }
 
-impl Write for Writer {
-    fn write(&mut self, buffer: &[u8]) -> io::Result<usize> {
+impl Writer {
+    /// Tests whether the buffer may still grow.
+    /// Checked once per value, so that a value made of several parts is written in full or not at all.
+    fn check_capacity(&self) -> io::Result<()> {
         if self.bytes.len() > (u16::MAX as usize) + MINIMUM_LENGTH {
             Err(io::ErrorKind::WriteZero.into())
         } else {
-            self.bytes.extend_from_slice(buffer);
-            Ok(buffer.len())
+            Ok(())
         }
+    }
+}
+
+impl Write for Writer {
+    fn write(&mut self, buffer: &[u8]) -> io::Result<usize> {
+        self.check_capacity()?;
+        self.bytes.extend_from_slice(buffer);
+
+        Ok(buffer.len())
     }
 
     fn flush(&mut self) -> io::Result<()> {
@@ -108,23 +118,25 @@ pub trait WriteToHeader {
 
 impl WriteToHeader for Addresses {
     fn write_to(&self, writer: &mut Writer) -> io::Result<usize> {
+        writer.check_capacity()?;
+
         match self {
             Addresses::Unspecified => (),
             Addresses::IPv4(a) => {
-                writer.write_all(a.source_address.octets().as_slice())?;
-                writer.write_all(a.destination_address.octets().as_slice())?;
-                writer.write_all(a.source_port.to_be_bytes().as_slice())?;
-                writer.write_all(a.destination_port.to_be_bytes().as_slice())?;
+                writer.bytes.extend_from_slice(a.source_address.octets().as_slice());
+                writer.bytes.extend_from_slice(a.destination_address.octets().as_slice());
+                writer.bytes.extend_from_slice(a.source_port.to_be_bytes().as_slice());
+                writer.bytes.extend_from_slice(a.destination_port.to_be_bytes().as_slice());
             }
             Addresses::IPv6(a) => {
-                writer.write_all(a.source_address.octets().as_slice())?;
-                writer.write_all(a.destination_address.octets().as_slice())?;
-                writer.write_all(a.source_port.to_be_bytes().as_slice())?;
-                writer.write_all(a.destination_port.to_be_bytes().as_slice())?;
+                writer.bytes.extend_from_slice(a.source_address.octets().as_slice());
+                writer.bytes.extend_from_slice(a.destination_address.octets().as_slice());
+                writer.bytes.extend_from_slice(a.source_port.to_be_bytes().as_slice());
+                writer.bytes.extend_from_slice(a.destination_port.to_be_bytes().as_slice());
             }
             Addresses::Unix(a) => {
-                writer.write_all(a.source.as_slice())?;
-                writer.write_all(a.destination.as_slice())?;
+                writer.bytes.extend_from_slice(a.source.as_slice());
+                writer.bytes.extend_from_slice(a.destination.as_slice());
             }
         };
 
@@ -138,9 +150,10 @@ impl<'a> WriteToHeader for TypeLengthValue<'a> {
             return Err(io::ErrorKind::WriteZero.into());
         }
 
-        writer.write_all([self.kind].as_slice())?;
-        writer.write_all((self.value.len() as u16).to_be_bytes().as_slice())?;
-        writer.write_all(self.value.as_ref())?;
+        writer.check_capacity()?;
+        writer.bytes.push(self.kind);
+        writer.bytes.extend_from_slice((self.value.len() as u16).to_be_bytes().as_slice());
+        writer.bytes.extend_from_slice(self.value.as_ref());
 
         Ok(MINIMUM_TLV_LENGTH + self.value.len())
     }
@@ -155,9 +168,10 @@ impl<'a, T: Copy + Into<u8>> WriteToHeader for (T, &'a [u8]) {
             return Err(io::ErrorKind::WriteZero.into());
         }
 
-        writer.write_all([kind].as_slice())?;
-        writer.write_all((value.len() as u16).to_be_bytes().as_slice())?;
-        writer.write_all(value)?;
+        writer.check_capacity()?;
+        writer.bytes.push(kind);
+        writer.bytes.extend_from_slice((value.len() as u16).to_be_bytes().as_slice());
+        writer.bytes.extend_from_slice(value);
 
         Ok(MINIMUM_TLV_LENGTH + value.len())
     }
